@@ -89,6 +89,36 @@ def locked(node):
                for a in ancestors(node))
 
 
+def timeout_returns_result(ctx, sym, rule):
+    """timeout() executed abstractly against a model thread that finishes in time: what the function returned is what
+    timeout() returns (Sandbox._import hands a student module back through it)."""
+    from .. import symexec
+    from ..fdeval import Obj
+    tmod = ctx.repo.module('pedal.sandbox.timeout')
+    to = tmod.func('timeout')
+    ctx.analysed_function(tmod, to)
+    produced = symexec.marker('what-the-function-returned')
+    for libs in (True, False):
+        thread = Obj('student-thread', exc_info=(None, None, None), daemon=True, result=produced, __open__=True)
+        thread.attrs['__classdef__'] = tmod.cls('InterruptableThread')
+        for name, ret in (('start', None), ('join', None), ('is_alive', False), ('isAlive', False)):
+            symexec.method(thread, name, (lambda r: (lambda *a, **k: r))(ret))
+        fd = symexec.new_fd(sym, tmod, calls={'InterruptableThread': lambda *a, **k: thread,
+                                              'sys.exc_info': lambda: (None, None, None)},
+                            extra={'threading': 'threading-module' if libs else None,
+                                   'ctypes': 'ctypes-module' if libs else None})
+        fn_stub = lambda *a, **k: produced
+        fn_stub._fd_callable = True
+        got, raised = symexec.run(fd, to, [0.5, fn_stub], what='timeout()')
+        ctx.check(raised is None and got is produced, rule,
+                  'timeout():returns-result[%s]' % ('threads' if libs else 'no-threading-module'), tmod, to,
+                  "for a function that finishes in time timeout() returns %r%s, not what the function returned" % (
+                      got, '' if raised is None else ' (raises %s)' % raised.kind),
+                  "sandbox.threaded = True; a main file `import helper; print(helper.f())` with helper.py in the "
+                  "submission: Sandbox._import returns timeout(...), i.e. None, and the program that runs under plain "
+                  "Python ends with AttributeError: 'NoneType' object has no attribute 'f'")
+
+
 def run(ctx):
     sym = Symbols(ctx.repo)
     mod = ctx.repo.module(SANDBOX)
